@@ -76,6 +76,9 @@ impl Edge {
   }
 }
 
+pub fn throttle_by_window(v: &V) -> u64 {
+  1 + (v.num().rem_euclid(2)) as u64
+}
 pub fn inc(v: V) -> V {
   V::I(v.num() + 1)
 }
@@ -142,6 +145,8 @@ pub enum Op1 {
   SubscribeOn,
   Debounce(u64),
   ThrottleTime(u64, Edge),
+  /// throttle with a per-item window: odd items 2 ticks, even items 1 tick
+  ThrottleBy(Edge),
   BufferWithTime(u64),
   BufferWithCountAndTime(usize, u64),
   SampleInterval(u64),
@@ -338,6 +343,7 @@ impl Op1 {
         | Op1::SubscribeOn
         | Op1::Debounce(_)
         | Op1::ThrottleTime(..)
+        | Op1::ThrottleBy(_)
         | Op1::BufferWithTime(_)
         | Op1::BufferWithCountAndTime(..)
         | Op1::SampleInterval(_)
@@ -412,6 +418,7 @@ impl Op1 {
       Op1::SubscribeOn => "subscribe_on",
       Op1::Debounce(_) => "debounce",
       Op1::ThrottleTime(..) => "throttle_time",
+      Op1::ThrottleBy(_) => "throttle",
       Op1::BufferWithTime(_) => "buffer_with_time",
       Op1::BufferWithCountAndTime(..) => "buffer_with_count_and_time",
       Op1::SampleInterval(_) => "sample(interval)",
@@ -912,6 +919,10 @@ macro_rules! build_fns {
               let $cxs = cx;
               s.throttle_time(ticks(*w), edge.get(), $sched).box_it()
             }},
+            Op1::ThrottleBy(edge) => {
+              let $cxs = cx;
+              s.throttle(|v: &V| ticks(throttle_by_window(v)), edge.get(), $sched).box_it()
+            }
             Op1::BufferWithTime(w) => {
               let $cxs = cx;
               s.buffer_with_time(ticks(*w), $sched).map(V::from).box_it()
